@@ -31,8 +31,26 @@ func c13Gen(r *rand.Rand, tier string) any {
 		}
 		label := pickLabel(r, shadow)
 		always := r.IntN(8) == 0
+		broken := ""
+		if i > 0 && r.IntN(6) == 0 {
+			// a source of the closure is unreadable while the dry run happens, and back afterwards
+			for _, t := range shadow.closure(label) {
+				for _, s := range t.Sources {
+					rel := shadow.sourceRel(t, s)
+					if _, ok := shadow.Files[rel]; ok && broken == "" {
+						broken = rel
+					}
+				}
+			}
+			if broken != "" {
+				sc.Ops = append(sc.Ops, opSpec{Op: "break-source", Path: broken})
+			}
+		}
 		for d := 0; d < 1+r.IntN(2); d++ {
 			sc.Ops = append(sc.Ops, opSpec{Op: "build", Label: label, Dry: true, Always: always})
+		}
+		if broken != "" {
+			sc.Ops = append(sc.Ops, opSpec{Op: "restore-source", Path: broken})
 		}
 		real := opSpec{Op: "build", Label: label, Always: always}
 		if r.IntN(5) == 0 {
@@ -101,7 +119,11 @@ func runHistory(c *simcheck.Ctx, sc *histScenario, prefix string, skip func(i in
 			continue
 		}
 		h.w.events = nil
-		res := h.build(i, op, h.pc, nil)
+		pc := h.pc
+		if ioErrOps && op.Op == "build" && op.N > 0 {
+			pc.IOErrAt = map[int]int{op.N: op.N}
+		}
+		res := h.build(i, op, pc, nil)
 		if v := procFailure(res); v != nil {
 			if v.Class == simcheck.EngineError {
 				return nil, nil, v, false
@@ -110,6 +132,10 @@ func runHistory(c *simcheck.Ctx, sc *histScenario, prefix string, skip func(i in
 			return nil, nil, nil, false
 		}
 		if res.LoadErr != nil {
+			if pc.IOErrAt != nil {
+				c.St.Count("load_failed_under_injected_io_error", 1)
+				continue
+			}
 			if first {
 				return nil, nil, simcheck.V(simcheck.EngineError, "generated project does not load: %v", res.LoadErr), false
 			}
@@ -290,6 +316,9 @@ func sourceLabelOf(p *projSpec, t *targetSpec, s string) string {
 	return "source://" + dir + ":" + name
 }
 
+// ioErrOps makes runHistory inject an I/O error at operation op.N of a build (C18).
+var ioErrOps bool
+
 // hashHook is called by world.process between Load and Run.
 var hashHook func(w *world)
 
@@ -342,7 +371,7 @@ func c14Gen(r *rand.Rand, tier string) any {
 			shadow.applySpecEdit2(&op)
 			sc.Ops = append(sc.Ops, op)
 		case k < 9:
-			sc.Ops = append(sc.Ops, opSpec{Op: "gc"})
+			sc.Ops = append(sc.Ops, opSpec{Op: "gc", Index: r.IntN(2) == 0}) // `dawn gc` loads from the index when it can
 		default:
 			op := opSpec{Op: "build", Label: pickLabel(r, shadow)}
 			if r.IntN(6) == 0 {
@@ -355,7 +384,7 @@ func c14Gen(r *rand.Rand, tier string) any {
 			sc.Ops = append(sc.Ops, op)
 		}
 	}
-	sc.Ops = append(sc.Ops, opSpec{Op: "gc"}, opSpec{Op: "build", Label: pickLabel(r, shadow)})
+	sc.Ops = append(sc.Ops, opSpec{Op: "gc", Index: r.IntN(2) == 0}, opSpec{Op: "build", Label: pickLabel(r, shadow)})
 	return sc
 }
 
@@ -491,7 +520,9 @@ func c14Exec(scAny any, c *simcheck.Ctx) *simcheck.Violation {
 			}
 		}
 		for n := range after {
-			if !live[n] {
+			// a collection that loaded the project from its index knows the targets of the last
+			// full load; records of targets removed since then are not dead to it yet
+			if !live[n] && !op.Index {
 				return simcheck.V("gc-kept-dead-record", "after garbage collection the record %s remains although no target or source of the project has it", n)
 			}
 		}
